@@ -766,6 +766,52 @@ func check(c *filterCase, o *vk.Obs) []string {
 			}
 		}
 	}
+	// the same filters seen through a text report at the default (functions) granularity: -traces lists every
+	// surviving sample that still has frames, with the function names of its frames
+	if allNamed(p) && !sfHit && ex.undecided == false {
+		fl := c.F.flags()
+		fl["traces"] = "true"
+		res := pp.Run(pp.Req{Flags: fl, Args: []string{"src"}, Sources: map[string]*pp.Source{"src": {Prof: p}}})
+		switch {
+		case res.Panic != "":
+			return []string{"pprof -traces panicked: " + res.Panic}
+		case res.Err != nil:
+			nonEmpty := false
+			for _, s := range ex.samples {
+				if len(s.Frames) > 0 {
+					nonEmpty = true
+				}
+			}
+			if nonEmpty {
+				e.Addf("pprof -traces with filters %+v failed although samples survive: %v", c.F, res.Err)
+			}
+		default:
+			_, trs, err := model.ParseTraces(res.Out("out"))
+			if err != nil {
+				e.Addf("cannot parse -traces output: %v", err)
+				break
+			}
+			var want []string
+			for _, s := range ex.samples {
+				if len(s.Frames) == 0 {
+					continue
+				}
+				var names []string
+				for _, fr := range s.Frames {
+					names = append(names, fr.Name)
+				}
+				want = append(want, fmt.Sprintf("%d %s", s.Values[idx], strings.Join(names, "<")))
+			}
+			var got []string
+			for _, tr := range trs {
+				got = append(got, fmt.Sprintf("%d %s", tr.Value, strings.Join(tr.Names, "<")))
+			}
+			if strings.Join(want, "|") != strings.Join(got, "|") {
+				e.Addf("filters %+v: -traces (functions granularity) lists\n   %q\nthe documentation says\n   %q", c.F, got, want)
+			}
+			o.Label("traces-view")
+		}
+	}
 	// partition law: focus=R and ignore=R split the unfiltered profile
 	if c.PartR != "" {
 		fo, _, err1 := runProto(p, Filt{Focus: c.PartR})
@@ -808,4 +854,21 @@ func describe(ss []msample) []string {
 func TestPropFilter(t *testing.T) {
 	vk.Main(t, vk.Spec[filterCase]{ID: "C06", Facet: "filter", Quick: 4000, Thorough: 25000, Gen: genCase, Check: check, Journal: true,
 		Rule: "generated profiles (shared and inlined locations, empty stacks, unsymbolized frames, binaries whose names match too) x filter sets from a grammar (regexps built from the case's own function/file/binary names: literal, anchored, alternation, prefix.*, (?i), class, suffix, non-matching; tag filters: regex, regex1,regex2, key=..., numeric N, N:, :M, N:M with memory/time units) for focus/ignore/hide/show/show_from/tagfocus/tagignore/tagshow/taghide/relative_percentages, plus the focus=R/ignore=R partition; oracle: frame-level reference filter model from doc/README.md, observed through -proto and -top; non-trivial = the filters keep some samples and remove others, or remove frames"})
+}
+
+// allNamed: every frame has a non-empty function name without white space, and values print losslessly,
+// so that the -traces text identifies the frames.
+func allNamed(p *profile.Profile) bool {
+	for _, l := range p.Location {
+		if len(l.Line) == 0 {
+			return false
+		}
+		for _, ln := range l.Line {
+			if ln.Function == nil || ln.Function.Name == "" || strings.ContainsAny(ln.Function.Name, " \t\n") {
+				return false
+			}
+		}
+	}
+	st := p.SampleType[len(p.SampleType)-1]
+	return st.Unit == "count" || st.Unit == "widgets"
 }
